@@ -35,7 +35,8 @@ FRESH_CALLS = {'list', 'set', 'dict', 'sorted', 'copy', 'deepcopy', 'reversed', 
 PURE_METHOD_PREFIX = ('get_', 'is_', 'has_', 'find_')
 PURE_METHODS = {'get', 'keys', 'values', 'items', 'lower', 'upper', 'split', 'rsplit', 'strip', 'rstrip', 'lstrip',
                 'startswith', 'endswith', 'join', 'format', 'find', 'rfind', 'index', 'count', 'isdecimal', 'isdigit',
-                'replace', 'jsonfy', 'end', 'start', 'group', 'tell', 'exists', 'with_suffix'}
+                'replace', 'jsonfy', 'end', 'start', 'group', 'tell', 'exists', 'with_suffix', 'molecular_weight', 'rsplit',
+                'reverse_complement', 'translate', 'union', 'intersection', 'difference', 'issubset', 'decode', 'encode'}
 MUTATORS = {'append', 'add', 'update', 'pop', 'remove', 'extend', 'insert', 'clear', 'sort', 'setdefault', 'discard',
             'appendleft', 'popleft', 'reverse', 'write', 'seek', 'read', 'readline', 'close'}
 LOGGER_ROOTS = {'logger', 'logging'}
@@ -161,7 +162,11 @@ def _walk_shallow(node):
 
 # ------------------------------------------------------------------------------- S strip
 class _Strip(ast.NodeTransformer):
+    keep_logging = False
+
     def visit_FunctionDef(self, n):
+        if n.name == 'log' or n.name.startswith(('log_', 'print_')):
+            self.keep_logging = True          # functions whose purpose is reporting
         n.returns = None
         for a in n.args.posonlyargs + n.args.args + n.args.kwonlyargs:
             a.annotation = None
@@ -171,7 +176,7 @@ class _Strip(ast.NodeTransformer):
             n.args.kwarg.annotation = None
         n.type_comment = None
         self.generic_visit(n)
-        n.body = _strip_block(n.body)
+        n.body = _strip_block(n.body, keep_logging=self.keep_logging)
         return n
     visit_AsyncFunctionDef = visit_FunctionDef
 
@@ -186,7 +191,7 @@ class _Strip(ast.NodeTransformer):
         for fld in ('body', 'orelse', 'finalbody'):
             blk = getattr(n, fld, None)
             if isinstance(blk, list) and blk and isinstance(blk[0], ast.stmt) and not isinstance(n, (ast.FunctionDef, ast.AsyncFunctionDef)):
-                setattr(n, fld, _strip_block(blk, keep_one=(fld == 'body')))
+                setattr(n, fld, _strip_block(blk, keep_one=(fld == 'body'), keep_logging=self.keep_logging))
         return n
 
 
@@ -205,14 +210,14 @@ def _is_logger_call(st) -> bool:
     return False
 
 
-def _strip_block(stmts, keep_one=True):
+def _strip_block(stmts, keep_one=True, keep_logging=False):
     out = []
     for st in stmts:
         if st is None or isinstance(st, ast.Pass):
             continue
         if isinstance(st, ast.Expr) and isinstance(st.value, ast.Constant):
             continue           # docstrings / stray literals
-        if _is_logger_call(st):
+        if _is_logger_call(st) and not keep_logging:
             continue
         out.append(st)
     if not out and keep_one:
@@ -357,12 +362,13 @@ class Flow:
                 continue
             A = [s for s in st.body if not isinstance(s, ast.Pass)]
             B = [s for s in st.orelse if not isinstance(s, ast.Pass)]
-            # if c: x = a else: x = b   ->  x = a if c else b      (any position)
-            if len(A) == 1 and len(B) == 1 and isinstance(A[0], ast.Assign) and isinstance(B[0], ast.Assign) \
-                    and len(A[0].targets) == 1 and len(B[0].targets) == 1 and isinstance(A[0].targets[0], ast.Name) \
-                    and _u(A[0].targets[0]) == _u(B[0].targets[0]):
-                out.append(ast.Assign(targets=A[0].targets, value=ast.IfExp(test=st.test, body=A[0].value, orelse=B[0].value)))
-                continue
+            # single statements that differ in one sub-expression: `if c: S[a] else: S[b]` -> S[a if c else b]
+            if len(A) == 1 and len(B) == 1 and type(A[0]) is type(B[0]) and isinstance(A[0], (ast.Assign, ast.Expr, ast.AugAssign)) \
+                    and _pure(st.test, False):
+                m = merge_cond(A[0], B[0], st.test)
+                if m is not None:
+                    out.append(m)
+                    continue
             atoms: List[Tuple[str, ast.AST]] = []
             tree, remaining = self.region([st] + work, atoms, top=True)
             if tree is not None and len(atoms) <= self.MAX_ATOMS:
@@ -434,7 +440,8 @@ class Flow:
         if stmts and isinstance(stmts[0], ast.If) and _atom_pure(stmts[0].test):
             # `x = a if c else b` candidates stay leaves
             s0 = stmts[0]
-            is_assign_pair = (len(s0.body) == 1 and len(s0.orelse) == 1 and isinstance(s0.body[0], ast.Assign) and isinstance(s0.orelse[0], ast.Assign))
+            is_assign_pair = (len(s0.body) == 1 and len(s0.orelse) == 1 and type(s0.body[0]) is type(s0.orelse[0])
+                              and isinstance(s0.body[0], (ast.Assign, ast.Expr, ast.AugAssign)) and merge_cond(s0.body[0], s0.orelse[0], s0.test) is not None)
             if not is_assign_pair:
                 saved = list(atoms)
                 t, rem = self.region(stmts, atoms, top=False)
@@ -588,9 +595,15 @@ class Flow:
         return drop_empty(chain)
 
     def is_yield_loop(self, st: ast.For) -> bool:
-        return (not st.orelse and len(st.body) == 1 and isinstance(st.body[0], ast.Expr) and isinstance(st.body[0].value, ast.Yield)
-                and isinstance(st.target, ast.Name) and isinstance(st.body[0].value.value, ast.Name)
-                and st.body[0].value.value.id == st.target.id)
+        if not (not st.orelse and len(st.body) == 1 and isinstance(st.body[0], ast.Expr) and isinstance(st.body[0].value, ast.Yield)
+                and st.body[0].value.value is not None):
+            return False
+        y = st.body[0].value.value
+        if isinstance(st.target, ast.Name):
+            return isinstance(y, ast.Name) and y.id == st.target.id
+        if isinstance(st.target, ast.Tuple) and isinstance(y, ast.Tuple) and len(y.elts) == len(st.target.elts):
+            return all(isinstance(a, ast.Name) and isinstance(b, ast.Name) and a.id == b.id for a, b in zip(st.target.elts, y.elts))
+        return False
 
     def fold_bool_returns(self, out):
         """[if c: return False]* ; return E(bool)   ->  return (not c) and ... and E"""
@@ -630,16 +643,37 @@ class _Expr(ast.NodeTransformer):
 
     def visit_BoolOp(self, n):
         self.generic_visit(n)
-        return _flat_bool(n)
+        n = _flat_bool(n)
+        if isinstance(n, ast.BoolOp):
+            # pure boolean operands commute (evaluation order of pure atoms is not distinguished);
+            # impure operands are barriers
+            vals, run = [], []
+            for v in n.values:
+                if _pure(v, False) and _boolish(v):
+                    run.append(v)
+                else:
+                    vals += sorted(run, key=_shape)
+                    run = []
+                    vals.append(v)
+            vals += sorted(run, key=_shape)
+            n.values = vals
+        return n
 
     def visit_IfExp(self, n):
         self.generic_visit(n)
         if isinstance(n.test, ast.UnaryOp) and isinstance(n.test.op, ast.Not):
-            return ast.IfExp(test=n.test.operand, body=n.orelse, orelse=n.body)
+            n = ast.IfExp(test=n.test.operand, body=n.orelse, orelse=n.body)
+        if _pure(n.test, False) and type(n.body) is type(n.orelse) and not isinstance(n.body, _NO_DESCEND):
+            m = merge_cond(n.body, n.orelse, n.test)
+            if m is not None and not isinstance(m, ast.IfExp):
+                return m
         return n
 
     def visit_Compare(self, n):
         self.generic_visit(n)
+        if len(n.ops) == 1 and isinstance(n.ops[0], (ast.Gt, ast.GtE)) and _pure(n.left, False) and _pure(n.comparators[0], False):
+            # a > b  ==  b < a   (operands pure: their evaluation order does not matter)
+            return ast.Compare(left=n.comparators[0], ops=[ast.Lt() if isinstance(n.ops[0], ast.Gt) else ast.LtE()], comparators=[n.left])
         if len(n.ops) > 1 and all(_simple(c) for c in n.comparators[:-1]):
             parts = []
             left = n.left
@@ -739,6 +773,13 @@ class Idioms:
         if isinstance(st, ast.AugAssign) and isinstance(st.op, ast.Add) and isinstance(st.target, ast.Name) and isinstance(st.value, ast.ListComp):
             emit = ast.Expr(value=ast.Call(func=ast.Attribute(value=ast.Name(id=st.target.id, ctx=ast.Load()), attr='append', ctx=ast.Load()), args=[st.value.elt], keywords=[]))
             return self.block(self.comp_loop(st.value, emit))
+        # x.extend(E) -> for _c in E: x.append(_c)      (x a simple receiver)
+        if isinstance(st, ast.Expr) and isinstance(st.value, ast.Call) and isinstance(st.value.func, ast.Attribute) \
+                and st.value.func.attr == 'extend' and len(st.value.args) == 1 and not st.value.keywords and _simple(st.value.func.value):
+            nm = self.fresh()
+            emit = ast.Expr(value=ast.Call(func=ast.Attribute(value=copy.deepcopy(st.value.func.value), attr='append', ctx=ast.Load()),
+                                           args=[ast.Name(id=nm, ctx=ast.Load())], keywords=[]))
+            return [ast.For(target=ast.Name(id=nm, ctx=ast.Store()), iter=st.value.args[0], body=[emit], orelse=[], type_comment=None)]
         # d.setdefault(k, v)  as a statement  ->  if k not in d: d[k] = v
         if isinstance(st, ast.Expr) and isinstance(st.value, ast.Call) and isinstance(st.value.func, ast.Attribute) \
                 and st.value.func.attr == 'setdefault' and len(st.value.args) == 2 and _simple(st.value.func.value) and self.cheap(st.value.args[1]):
@@ -839,7 +880,9 @@ def _simple_key(e) -> bool:
 def _pure(e, single_use: bool) -> bool:
     """may the evaluation of e be moved / duplicated?"""
     for n in ast.walk(e):
-        if isinstance(n, (ast.Yield, ast.YieldFrom, ast.Await, ast.NamedExpr, ast.Lambda, ast.Starred)):
+        if isinstance(n, (ast.Yield, ast.YieldFrom, ast.Await, ast.NamedExpr, ast.Starred)):
+            return False
+        if isinstance(n, ast.Lambda) and not (single_use and n is e):
             return False
         if isinstance(n, (ast.ListComp, ast.SetComp, ast.DictComp, ast.GeneratorExp, ast.List, ast.Dict, ast.Set)) and not single_use:
             return False
@@ -942,6 +985,12 @@ def _prop_one(fn, name, store) -> bool:
     # contains the last use (definition and uses run in the same iteration of any enclosing loop)
     last_use_idx = max(i for i, s in enumerate(later) if any(id(u) in {id(n) for n in ast.walk(s)} for u in uses))
     region: List[ast.AST] = list(later[:last_use_idx + 1])
+    lu = later[last_use_idx]
+    head = lu.test if isinstance(lu, ast.If) else (lu.iter if isinstance(lu, ast.For) else None)
+    if head is not None:
+        head_ids = {id(n) for n in ast.walk(head)}
+        if all(id(u) in head_ids or any(id(u) in {id(n) for n in ast.walk(s)} for s in later[:last_use_idx]) for u in uses):
+            region = list(later[:last_use_idx]) + [head]
     for r in region:
         for n in _walk_shallow(r):
             if isinstance(n, ast.Name) and isinstance(n.ctx, (ast.Store, ast.Del)) and n.id in inputs:
@@ -1045,9 +1094,131 @@ def sink_inits(block: List[ast.stmt]) -> List[ast.stmt]:
                     j = k
                     break
             if j is not None and j > i + 1:
-                out.insert(j, out.pop(i))
+                out.insert(j - 1, out.pop(i))
         i -= 1
     return out
+
+
+
+# ------------------------------------------------------------------------------- M merge / push conditionals
+_NO_DESCEND = (ast.Lambda, ast.ListComp, ast.SetComp, ast.DictComp, ast.GeneratorExp, ast.BoolOp, ast.IfExp, ast.JoinedStr)
+
+
+def merge_cond(a, b, c):
+    """one node that equals `a` when c is true and `b` otherwise, with the conditional expression at the
+    innermost single differing sub-expression; None when a and b differ in more than one place"""
+    if ast.dump(a) == ast.dump(b):
+        return a
+    if type(a) is type(b) and not isinstance(a, _NO_DESCEND):
+        diffs = []
+        ok = True
+        for fld in a._fields:
+            va, vb = getattr(a, fld, None), getattr(b, fld, None)
+            if isinstance(va, ast.AST) and isinstance(vb, ast.AST):
+                if ast.dump(va) != ast.dump(vb):
+                    diffs.append((fld, None, va, vb))
+            elif isinstance(va, list) and isinstance(vb, list):
+                if len(va) != len(vb):
+                    ok = False
+                    break
+                for i, (x, y) in enumerate(zip(va, vb)):
+                    if isinstance(x, ast.AST) and isinstance(y, ast.AST):
+                        if ast.dump(x) != ast.dump(y):
+                            diffs.append((fld, i, x, y))
+                    elif x != y:
+                        ok = False
+            elif va != vb:
+                ok = False
+        if ok and len(diffs) == 1:
+            fld, i, x, y = diffs[0]
+            if fld not in ('targets', 'target', 'ops', 'op', 'ctx') and isinstance(x, ast.expr) and isinstance(y, ast.expr):
+                m = merge_cond(x, y, c)
+                if m is not None:
+                    new = copy.copy(a)
+                    if i is None:
+                        setattr(new, fld, m)
+                    else:
+                        lst = list(getattr(a, fld))
+                        lst[i] = m
+                        setattr(new, fld, lst)
+                    return new
+    if isinstance(a, ast.expr) and isinstance(b, ast.expr) and not isinstance(getattr(a, 'ctx', None), (ast.Store, ast.Del)):
+        return ast.IfExp(test=copy.deepcopy(c), body=a, orelse=b)
+    return None
+
+
+# ------------------------------------------------------------------------------- R sequential redefinitions / dead stores
+def split_redefs(fn):
+    """`x = E1 ... x = E2(x) ...` at the top level of the function body: every redefinition starts a new
+    variable.  Only when all bindings of x are plain top-level assignments of the function body."""
+    captured = set()
+    for n in ast.walk(fn):
+        if isinstance(n, (ast.Lambda, ast.FunctionDef, ast.AsyncFunctionDef)) and n is not fn:
+            captured |= {x.id for x in ast.walk(n) if isinstance(x, ast.Name)}
+    top_defs: Dict[str, List[int]] = {}
+    for i, st in enumerate(fn.body):
+        if isinstance(st, ast.Assign) and len(st.targets) == 1:
+            for t in ast.walk(st.targets[0]):
+                if isinstance(t, ast.Name) and isinstance(t.ctx, ast.Store):
+                    top_defs.setdefault(t.id, []).append(i)
+    all_stores: Dict[str, int] = {}
+    for n in _walk_shallow(fn):
+        if isinstance(n, ast.Name) and isinstance(n.ctx, (ast.Store, ast.Del)):
+            all_stores[n.id] = all_stores.get(n.id, 0) + 1
+        elif isinstance(n, ast.ExceptHandler) and n.name:
+            all_stores[n.name] = all_stores.get(n.name, 0) + 5
+    globs = {x for n in _walk_shallow(fn) if isinstance(n, (ast.Global, ast.Nonlocal)) for x in n.names}
+    k = 0
+    for name, pos in sorted(top_defs.items()):
+        if name in captured or name in globs or len(pos) < 2 or all_stores.get(name, 0) != len(pos) or len(set(pos)) != len(pos):
+            continue
+        for seg, p in enumerate(pos[1:], start=2):
+            k += 1
+            new = f"{name}__r{seg}"
+            nxt = pos[seg] if seg < len(pos) else len(fn.body)
+            # the store at p and loads after p up to (and including the right-hand side of) the next definition
+            for t in ast.walk(fn.body[p].targets[0]):
+                if isinstance(t, ast.Name) and t.id == name:
+                    t.id = new
+            for j in range(p + 1, nxt):
+                for n in ast.walk(fn.body[j]):
+                    if isinstance(n, ast.Name) and n.id == name:
+                        n.id = new
+            if nxt < len(fn.body):
+                for n in ast.walk(fn.body[nxt].value):
+                    if isinstance(n, ast.Name) and n.id == name:
+                        n.id = new
+            name_prev = new
+        # later segments were renamed relative to `name`; chain them
+        # (each pass above renames occurrences of the ORIGINAL name only inside its own segment, so they are disjoint)
+    return fn
+
+
+def dead_stores(fn):
+    """`x = <call>` where x is never read: the value is kept as an expression statement"""
+    loads = {n.id for n in ast.walk(fn) if isinstance(n, ast.Name) and isinstance(n.ctx, ast.Load)}
+    globs = {x for n in _walk_shallow(fn) if isinstance(n, (ast.Global, ast.Nonlocal)) for x in n.names}
+
+    def rec(stmts):
+        out = []
+        for st in stmts:
+            for fld in ('body', 'orelse', 'finalbody'):
+                blk = getattr(st, fld, None)
+                if isinstance(blk, list) and blk and isinstance(blk[0], ast.stmt) and not isinstance(st, (ast.FunctionDef, ast.AsyncFunctionDef, ast.ClassDef)):
+                    setattr(st, fld, rec(blk) or [ast.Pass()])
+            if isinstance(st, ast.Try):
+                for h in st.handlers:
+                    h.body = rec(h.body) or [ast.Pass()]
+            if isinstance(st, ast.Assign) and len(st.targets) == 1 and isinstance(st.targets[0], ast.Name) \
+                    and st.targets[0].id not in loads and st.targets[0].id not in globs:
+                if _pure(st.value, False):
+                    continue
+                out.append(ast.Expr(value=st.value))
+                continue
+            out.append(st)
+        return out
+    fn.body = rec(fn.body) or [ast.Pass()]
+    return fn
 
 
 # ------------------------------------------------------------------------------- W split loop variables
@@ -1058,12 +1229,25 @@ def split_loop_vars(fn):
     params = {a.arg for a in ast.walk(fn.args) if isinstance(a, ast.arg)}
     for_targets: Dict[str, List[ast.For]] = {}
     other_store: Set[str] = set()
+    COMP = (ast.ListComp, ast.SetComp, ast.DictComp, ast.GeneratorExp)
     for n in _walk_shallow(fn):
         if isinstance(n, (ast.For, ast.AsyncFor)):
             for t in ast.walk(n.target):
                 if isinstance(t, ast.Name):
                     for_targets.setdefault(t.id, []).append(n)
-    tg_ids = {id(t) for loops in for_targets.values() for lp in loops for t in ast.walk(lp.target)}
+        elif isinstance(n, COMP):
+            for g in n.generators:
+                for t in ast.walk(g.target):
+                    if isinstance(t, ast.Name) and n not in for_targets.get(t.id, []):
+                        for_targets.setdefault(t.id, []).append(n)
+    tg_ids = set()
+    for loops in for_targets.values():
+        for lp in loops:
+            if isinstance(lp, COMP):
+                for g in lp.generators:
+                    tg_ids |= {id(t) for t in ast.walk(g.target)}
+            else:
+                tg_ids |= {id(t) for t in ast.walk(lp.target)}
     for n in _walk_shallow(fn):
         if isinstance(n, ast.Name) and isinstance(n.ctx, (ast.Store, ast.Del)) and id(n) not in tg_ids:
             other_store.add(n.id)
@@ -1198,7 +1382,9 @@ def canon_function(fn_node, consts: Dict[str, ast.AST] = None, rounds=5, keep_na
         local |= {a.arg for a in ast.walk(fn) if isinstance(a, ast.arg)}
         fn = _Consts(consts, local).visit(fn)
     prev = None
+    fn = split_redefs(fn)
     for _ in range(rounds):
+        fn = dead_stores(fn)
         fn.body = Idioms().block(fn.body)
         fn = _Expr().visit(fn)
         Flow().fn(fn)
@@ -1218,3 +1404,39 @@ def canon_function(fn_node, consts: Dict[str, ast.AST] = None, rounds=5, keep_na
     fn.decorator_list = [d for d in fn.decorator_list]
     ast.fix_missing_locations(fn)
     return ast.unparse(fn)
+
+
+def normal_form(fn_node, consts: Dict[str, ast.AST] = None, idioms=False, flow=True, rounds=4):
+    """the canonicalisation passes WITHOUT alpha-renaming, as an AST (rules that reason about path
+    conditions run on this form: guard style, helper extraction and hoisted locals do not matter)"""
+    fn = copy.deepcopy(fn_node)
+    fn = _Strip().visit(fn)
+    if consts:
+        local = {n.id for n in ast.walk(fn) if isinstance(n, ast.Name) and isinstance(n.ctx, (ast.Store, ast.Del))}
+        local |= {a.arg for a in ast.walk(fn) if isinstance(a, ast.arg)}
+        fn = _Consts(consts, local).visit(fn)
+    prev = None
+    for _ in range(rounds):
+        fn = dead_stores(fn)
+        if idioms:
+            fn.body = Idioms().block(fn.body)
+        fn = _Expr().visit(fn)
+        if flow:
+            Flow().fn(fn)
+            fn = _Expr().visit(fn)
+        for _k in range(60):
+            if not copy_propagate(fn):
+                break
+        ast.fix_missing_locations(fn)
+        txt = ast.unparse(fn)
+        if txt == prev:
+            break
+        prev = txt
+    # positions: everything points at the function header (reports name the function anyway)
+    for n in ast.walk(fn):
+        if isinstance(n, (ast.expr, ast.stmt, ast.ExceptHandler)):
+            n.lineno = getattr(fn_node, 'lineno', 1)
+            n.col_offset = 0
+            n.end_lineno = n.lineno
+            n.end_col_offset = 0
+    return fn
